@@ -248,19 +248,21 @@ def core_only_build(ver):
         '[package]\nname = "nostd_client"\nversion = "0.1.0"\nedition = "2021"\n[dependencies]\nhttparse = { path = "%s", default-features = false }\n[workspace]\n' % vd.REPO)
     open(os.path.join(src, "src", "lib.rs"), "w").write(NOSTD_CLIENT)
     results = {}
-    for hooks in (False, True):
+    for hooks, release in ((False, False), (False, True), (True, False)):
         env = dict(os.environ)
         env["CARGO_NET_OFFLINE"] = "true"
         env["RUSTFLAGS"] = "--cfg httparse_verif" if hooks else ""
         cmd = ["cargo", "+nightly", "build", "--offline", "-Zbuild-std=core", "--target", "x86_64-unknown-none", "--manifest-path",
                os.path.join(src, "Cargo.toml"), "--target-dir", td + ("-h" if hooks else "")]
+        if release:
+            cmd.append("--release")
         t0 = time.time()
         r = subprocess.run(cmd, env=env, stdout=subprocess.PIPE, stderr=subprocess.STDOUT, text=True)
-        results["hooks_on" if hooks else "hooks_off"] = dict(rc=r.returncode, seconds=round(time.time() - t0, 1))
+        results[("hooks_on" if hooks else "hooks_off") + ("_release" if release else "_dev")] = dict(rc=r.returncode, seconds=round(time.time() - t0, 1))
         if r.returncode != 0:
             tail = r.stdout[-1500:]
             if "E0463" in r.stdout or "E0433" in r.stdout or "E0432" in r.stdout or "can't find crate" in r.stdout:
-                if hooks and results.get("hooks_off", {}).get("rc") == 0:
+                if hooks and results.get("hooks_off_dev", {}).get("rc") == 0:
                     ver.inconclusive.append("core-only build fails only with hooks on:\n" + tail)
                 else:
                     ver.violations.append(dict(property="C19", rule="no_std_build_needs_std_or_alloc", variant="coreonly", signature=None,
@@ -272,7 +274,7 @@ def core_only_build(ver):
     shutil.rmtree(td + "-h", ignore_errors=True)
     ver.extra["core_only_build"] = dict(target="x86_64-unknown-none", build_std="core", results=results,
                                         client="no_std crate calling all 9 entry points, httparse default-features=false")
-    ver.evaluations += 2
+    ver.evaluations += 3
 
 
 def c19_coldstart(ver):
